@@ -158,6 +158,10 @@ Example ex_polygonize_missing_dangle :
   polygonize_check [[(0, 0); (4, 0)]; [(4, 0); (4, 4)]; [(4, 4); (0, 4)]; [(0, 4); (0, 0)]; [(4, 4); (6, 6)]; [(6, 6); (7, 7)]]
                    [([(4, 0); (0, 0); (0, 4); (4, 4); (4, 0)], [])] [[(6, 6); (7, 7)]] [[(4, 4); (6, 6)]] [] = false.
 Proof. vm_compute. reflexivity. Qed.
+Example ex_polygonize_overlap :
+  polyg_disjoint_ok [([(0, 0); (9, 0); (9, 9); (0, 9); (0, 0)], []); ([(3, 3); (6, 3); (3, 6); (3, 3)], [])] = false
+  /\ polyg_disjoint_ok [([(0, 0); (9, 0); (9, 9); (0, 9); (0, 0)], [[(3, 3); (3, 6); (6, 3); (3, 3)]]); ([(3, 3); (6, 3); (3, 6); (3, 3)], [])] = true.
+Proof. split; vm_compute; reflexivity. Qed.
 Example ex_shared_ok :
   shared_check [[(0, 0); (10, 0); (10, 10); (0, 10)]] [[(2, 0); (6, 0)]; [(10, 8); (10, 3)]]
                [[(2, 0); (6, 0)]] [[(10, 3); (10, 8)]] = true
